@@ -17,7 +17,7 @@ import ast
 from sa.astutil import dotted, inside_try_catching, params_of
 from sa.callgraph import CallGraph
 from sa.flow import walk_shallow
-from sa.repo import Ref, norm, qualname_of, enclosing_function
+from sa.repo import Ref, norm, parent, qualname_of, enclosing_function
 
 BASE = ('beartype.roar._roarexc', 'BeartypeException')
 WBASE = ('beartype.roar._roarwarn', 'BeartypeWarning')
@@ -248,6 +248,9 @@ def run(ctx):
 
     # ---- R13 ---------------------------------------------------------------------
     _foreign_factories_guarded(ctx)
+
+    # ---- R14 ---------------------------------------------------------------------
+    _hint_keyed_lookups(ctx)
 
     # ---- R6 ----------------------------------------------------------------------
     ctx.rule('C11.R6', 'no generated wrapper puts the call-through (or a validator invocation) inside a try body: a '
@@ -616,8 +619,9 @@ def _foreign_factories_guarded(ctx):
                              {k.arg for k in x.keywords if is_t(k.value) and k.arg in ps}
                         if nn:
                             follow(repo.modules[ref.module], ref.node, nn, depth - 1, entry)
-            elif isinstance(x, ast.Subscript) and isinstance(x.ctx, ast.Load) and is_t(x.slice) and foreign(m, x.value):
-                site = x
+            elif isinstance(x, ast.Subscript) and isinstance(x.ctx, ast.Load) and foreign(m, x.value) \
+                    and any(is_t(e) for e in ast.walk(x.slice)):
+                site = x      # X[hint] / X[hint, Other]: the subscription of a typing object by raw annotations
             if site is not None:
                 k = f'{m.name.rsplit(".", 1)[-1]}.{qualname_of(fn)}:{norm(site.func.value if isinstance(site, ast.Call) else site.value)}'
                 ok = inside_try_catching(site, {'TypeError', 'Exception', 'BaseException'}, stop=fn)
@@ -634,3 +638,79 @@ def _foreign_factories_guarded(ctx):
                ok, f'`{text}` (reached from {entry}) lets the TypeError of the typing module out')
     ctx.floor('C11.R13', len(sites), 1, 'foreign subscription factories fed raw annotations')
     ctx.require(len(seen) >= 8, f'only {len(seen)} functions followed from the sanifiers: the raw-annotation path was not traversed')
+
+
+#: dictionary lookups keyed by a hint in the conversion pipeline that need no guard, with the reason the key is hashable there
+HASHABLE_BY_DISPATCH = {
+    ('redpep484612646typearg', 'reduce_hint_pep484612646_typearg'):
+        'dispatched on the type-parameter signs: the key is a TypeVar / ParamSpec / TypeVarTuple object, hashable by identity',
+    ('redpep544', 'reduce_hint_pep484_generic_io_to_pep544_protocol'):
+        'dispatched on the IO generics of typing: the key is a typing class or its subscription, both hashable',
+    ('_redrecurse', 'is_hint_recursive'):
+        'called with hints of the recursable signs (type aliases, overridden hints) — and, for overrides, inside the caller\'s TypeError handler',
+    ('_redrecurse', 'make_hint_sane_recursable'):
+        'called after is_hint_recursive() succeeded on the same key',
+}
+
+
+def _hint_keyed_lookups(ctx):
+    """R14: unhashable hints are supported (Annotated[int, []]): wherever the conversion pipeline uses a hint as a dictionary
+    key the lookup is guarded, or the dispatch guarantees a hashable key (reviewed table, fail-closed for new sites)."""
+    repo = ctx.repo
+    ctx.rule('C11.R14', 'unhashable hints (Annotated[int, []], and non-hints such as [] that must be rejected with a beartype exception) '
+             'reach the conversion pipeline: every dictionary lookup keyed by a hint parameter under beartype/_check/convert '
+             '(d.get(hint) / d[hint] / hint in d / setdefault / pop) sits in a try whose handler catches TypeError, or under an '
+             'is_object_hashable(hint) test, or is one of the reviewed sites whose dispatch guarantees a hashable key (table, one '
+             'reason each; a new unguarded site is reported); and the wrappers of beartype.door never build a set / frozenset / '
+             'dict from the raw arguments of a hint outside such a guard')
+    n = 0
+    for mn, m in sorted(repo.modules.items()):
+        if not mn.startswith('beartype._check.convert'):
+            continue
+        short = mn.rsplit('.', 1)[-1]
+        for fn in [x for x in ast.walk(m.tree) if isinstance(x, (ast.FunctionDef, ast.AsyncFunctionDef))]:
+            ps = set(params_of(fn))
+            hp = {p for p in ps if p == 'hint' or (p.startswith('hint_') and not p.endswith(('_sign', '_name', '_sane', '_prefix', '_index', '_len')))}
+            if not hp:
+                continue
+            sites = []
+            for x in walk_shallow(fn):
+                if isinstance(x, ast.Call) and isinstance(x.func, ast.Attribute) and x.func.attr in ('get', 'setdefault', 'pop') and x.args \
+                        and dotted(x.args[0]) in hp:
+                    sites.append((x, dotted(x.args[0])))
+                elif isinstance(x, ast.Subscript) and dotted(x.slice) in hp and not dotted(x.value).startswith(('Union', 'Optional', 'Annotated')):
+                    sites.append((x, dotted(x.slice)))
+                elif isinstance(x, ast.Compare) and any(isinstance(o, (ast.In, ast.NotIn)) for o in x.ops) and dotted(x.left) in hp \
+                        and not isinstance(x.comparators[0], (ast.Tuple, ast.List)):
+                    sites.append((x, dotted(x.left)))
+            for x, key in sites:
+                n += 1
+                guarded = inside_try_catching(x, {'TypeError', 'Exception', 'BaseException'}, stop=fn)
+                p = parent(x)
+                while not guarded and p is not None and p is not fn:
+                    if isinstance(p, (ast.If, ast.IfExp)) and any(
+                            isinstance(c, ast.Call) and dotted(c.func).endswith('is_object_hashable') and c.args and dotted(c.args[0]) == key
+                            for c in ast.walk(p.test)) and x not in list(ast.walk(p.test)):
+                        guarded = True
+                    p = parent(p)
+                listed = (short, qualname_of(fn)) in HASHABLE_BY_DISPATCH
+                ctx.ob('C11.R14', f'hint-key:{short}.{qualname_of(fn)}:{norm(x)[:50]}', m.where(x),
+                       'a lookup keyed by a hint is guarded against unhashable hints (or its key is hashable by dispatch)', guarded or listed,
+                       f'`{norm(x)[:80]}` hashes the hint unguarded: an unhashable hint escapes as a bare TypeError')
+    ctx.floor('C11.R14', n, 5, 'hint-keyed lookups in the conversion pipeline')
+    # beartype.door: no hashing of raw hint arguments
+    k = 0
+    for mn, m in sorted(repo.modules.items()):
+        if not mn.startswith('beartype.door._cls'):
+            continue
+        short = mn.rsplit('.', 1)[-1]
+        for fn in [x for x in ast.walk(m.tree) if isinstance(x, (ast.FunctionDef, ast.AsyncFunctionDef))]:
+            k += 1
+            bad = [x for x in walk_shallow(fn) if isinstance(x, ast.Call) and dotted(x.func) in ('frozenset', 'set', 'dict.fromkeys') and x.args
+                   and any(isinstance(a, ast.Attribute) and a.attr in ('_args', '_hint', '__args__') for a in ast.walk(x.args[0]))
+                   and not inside_try_catching(x, {'TypeError', 'Exception', 'BaseException'}, stop=fn)]
+            if bad:
+                ctx.ob('C11.R14', f'door-hash:{short}.{qualname_of(fn)}', m.where(bad[0]), 'raw hint arguments are not hashed outside a TypeError handler',
+                       False, f'`{norm(bad[0])[:80]}` hashes the raw arguments of a hint (Literal[[1]] has an unhashable one)')
+    ctx.ob('C11.R14', 'door-hash:functions-scanned', 'beartype/door/_cls/doorsuper.py:0', f'{k} functions of beartype.door._cls scanned for hashing of raw hint arguments',
+           k >= 40, f'only {k} functions found')
